@@ -79,7 +79,7 @@ def build(config, tier):
         Ob("c20_%s_%s" % (cfgname, name), PROP, body, fn=fn, kind="lemma", solver="cadical", stubs=list(stubs), cls="lattice", tier=tier, clauses=clauses, desc=desc))
     L("constants_normalized", "check!(Vec3::X.is_normalized() && Vec3::Y.is_normalized() && Vec3::Z.is_normalized() && Vec3::NEG_X.is_normalized() && Vec3A::Z.is_normalized() && Vec2::X.is_normalized() && Vec4::W.is_normalized() && Quat::IDENTITY.is_normalized() && !Vec3::ZERO.is_normalized() && !Vec3::ONE.is_normalized(), \"axis constants are unit\");",
       "named constants", "axis constants and Quat::IDENTITY pass is_normalized; ZERO and ONE do not")
-    L("unit_quat_products", "let qi = sp::lat4(1); let pi = sp::lat4(1); vk::assume(sp::norm2(qi) == 1 && sp::norm2(pi) == 1); let q = Quat::from_array(sp::f32x4(qi)); let p = Quat::from_array(sp::f32x4(pi));\n"
+    L("unit_quat_products", "unsafe { crate::uf::SQRT_PINNED = true; } let qi = sp::lat4(1); let pi = sp::lat4(1); vk::assume(sp::norm2(qi) == 1 && sp::norm2(pi) == 1); let q = Quat::from_array(sp::f32x4(qi)); let p = Quat::from_array(sp::f32x4(pi));\n"
       "    let r = q * p; check!(q.is_normalized() && r.is_normalized() && q.inverse().is_normalized() && q.conjugate().is_normalized() && (r * q.inverse()).is_normalized(), \"products stay unit\");\n"
       "    let v = mk::<Vec3>(); let _x = r * v; let _y = q.inverse() * v; let _m = Mat3::from_quat(r); let _l = q.lerp(p, 0.0);",
       "unit quaternion products", "products, inverses and conjugates of the lattice unit quaternions pass is_normalized exactly and are accepted (no panic) by q*v, from_quat, lerp",
